@@ -66,6 +66,16 @@ CHECKS = {
         technique="differential testing: Hypothesis command histories replayed on the three backends (reply class, bytes, tree after every command); generated backend-API op sequences on PathIO vs AsyncPathIO",
         text="The same generated concrete history is replayed on MemoryPathIO, PathIO and AsyncPathIO servers on simnet and compared pairwise after every command; a failing command must leave the tree unchanged. API level: generated operation sequences (all open modes, seek whence, renames onto/into/through) on PathIO vs AsyncPathIO must give the same result-or-failure and tree; thorough also with real executor threads.",
         note="Differential oracle: no model needed. MemoryPathIO API differences not reachable through the server's command set are outside the property. Found and fixed 4 MemoryPathIO defects (KNOWN_FINDINGS)."),
+    "C10": dict(
+        category="exploration", design_ref="3/C10",
+        technique="Hypothesis-generated multi-session event histories (stateful, model-based) on a simulated network; oracle = slot-conservation model checked at quiescence after every event",
+        text="Up to 6 concurrent raw sessions perform generated events (connect, USER same/other/unknown/over-limit, PASS, QUIT, abrupt disconnect, partial command + FIN, undecodable line, idle-timeout expiry in virtual time, internal error via a backend raising a non-PathIOError, Server.close()) against servers with generated server-wide and per-user limits; after every event the server's and every user's counters must equal the model's (max - live admitted / attached), over-limit connects get 421 and over-limit USERs 530 without being counted, no accounting error is logged, and all counters return to their maximum.",
+        note="Trusted: simnet, the slot model (40 lines). Mutants caught: no notify_logout on re-USER; server slot released unconditionally; locked() off by one; user counter corrupted on refused USER."),
+    "C11": dict(
+        category="fault_enumeration", design_ref="3/C11",
+        technique="enumeration of bind-fault patterns (3^6 assignments of {ok, EADDRINUSE, EACCES} to port x attempt) and of session-end positions inside the passive listener start-up (iteration-indexed), plus Hypothesis histories; oracle = port multiset invariant + listener table",
+        text="simnet injects bind failures per (port, attempt) and ends sessions (peer disconnect or Server.close()) n loop iterations after PASV/EPSV was sent, for n = 0..15, 1-3 sessions at once on 1-3 port pools; Hypothesis adds generated multi-session histories with random fault patterns and network tapes. At quiescence after every event: multiset(pool) + ports bound by live sessions = configured set, the network's listener table holds exactly the bound ports, announced ports are configured and unshared, 421 only when no free port was bindable, and finally the pool is complete, no listener is left and a fresh session can still get a port.",
+        note="Trusted: simnet's create_server mirrors CPython 3.12's suspension points. The defect found here and in C12 (session end during start-up loses the port / leaks the listener) is fixed in 98b46c7. Mutants caught: port returned only on EADDRINUSE; NoAvailablePort not an OSError; give-back dropped from the dispatcher's finally; cancel path not returning the port."),
     "C12": dict(
         category="fault_enumeration", design_ref="3/C12",
         technique="enumeration of cut positions (peer vanishes / write-then-FIN / Server.close() at every network delivery event of every corpus script, iteration-indexed alignment sweeps) on a simulated network, plus Hypothesis-sampled schedule tapes; oracle = resource ledger",
